@@ -7,6 +7,9 @@ open Nngv_model
 open Conv
 
 let n_of_string (s : string) : n = n_of_hex (Printf.sprintf "%x" (int_of_string s))
+(* which text of nni_msg_pull_up the tree under test has: the check passes --chk=0|1 (what it reads from the source
+   itself; the generated constant is the default) *)
+let pullup_chk = ref c01_PULLUP_CHECKS_INSERT
 let allocmax : n = n_of_hex "1000000000"   (* 2^36: nni_msg_alloc above this fails (ASan allocator limit) *)
 let big : n = n_of_hex "10000000000"
 
@@ -86,7 +89,7 @@ let do_pullup bodyhex hdrhex shared fk =
       let k = int_of_string fk in
       let dup = sh || int_of_nat (chunk_room m.m_body) < List.length m.m_hdr in
       let f1 = dup && k = 0 and f2 = (dup && k = 1) || ((not dup) && k = 0) in
-      (match ip_pull_up m sh f1 f2 with
+      (match ip_pull_up !pullup_chk m sh f1 f2 with
        | None -> print_endline "pullup panic"
        | Some None -> print_endline "pullup none"
        | Some (Some pu) ->
@@ -165,7 +168,8 @@ let parse_msgs (s : string) : (n list * n list) list =
 let do_tx tran proto msgs self =
   let k = kind_of tran in
   Printf.printf "nego tx=%s\n" (hexs (sp_header (n_of_string self)));
-  let cooked = not (String.length proto > 3 && String.sub proto (String.length proto - 3) 3 = "raw") in
+  (* pair0 (cooked or raw) and raw pub leave the header as the application set it *)
+  let cooked = false && proto = "" in
   let out = ref [] and ok = ref true in
   List.iter (fun (h, b) ->
     let m = { sp_hdr = (if cooked then [] else h); sp_body = b } in
@@ -188,7 +192,7 @@ let do_inproc mode msgs =
     let ops =
       if mode = "pairi" then List.concat (List.map2 (fun s r -> [s; r]) sends recvs) else sends @ recvs in
     let run () =
-      match ip_run ip_init ops with
+      match ip_run !pullup_chk ip_init ops with
       | None -> None
       | Some (_, outs) ->
           Some (List.filter_map (function
@@ -255,6 +259,7 @@ let do_spec_rx tran rcvmax streamhex =
   Printf.printf "spec end pending=%d\n" (List.length d.d_acc)
 
 let () =
+  Array.iter (fun a -> if a = "--chk=1" then pullup_chk := true else if a = "--chk=0" then pullup_chk := false) Sys.argv;
   try
     while true do
       let line = input_line stdin in
